@@ -40,6 +40,11 @@ class SNRInstrument(Instrument):
 
         wngrid, spectrum, error, grid_width = self._binner.bin_model(model_res)
 
+        if grid_width is None:
+            # Native grid: widths from the mid-points between grid points
+            from taurex.util.util import compute_bin_edges
+            grid_width = compute_bin_edges(wngrid)[-1]
+
         signal = spectrum.max() - spectrum.min()
 
         noise = np.ones(spectrum.shape)*signal/self._SNR
